@@ -124,9 +124,14 @@ CLAIMS["C03"] = _b(
     "(registry_cross_references_all_histories): cookie map and uuid map of objects and of services name each other, the owner of every "
     "object is a connected connection that lists it, a connection lists only objects it owns, every service hangs off a live object "
     "that lists it; hence cascading destruction (services_of_a_dead_object_are_dead, destroy_object_unregisters, "
-    "destroy_service_unregisters) and cleanup on disconnect in any of the four ways (objects_of_a_gone_connection_are_gone). Partial: "
-    "the messages the cascade sends (ServiceDestroyed, bus events) are decided by the correspondence runs over a pool of 4 uuids "
-    "(collisions, re-creation, foreign access, disconnects, connections coming back to services they had subscribed to).", "DESIGN.md section 6 C03 and 10.2")
+    "destroy_service_unregisters) and cleanup on disconnect in any of the four ways (objects_of_a_gone_connection_are_gone). The bus "
+    "events of the cascade, from any state: remove_service of a registered cookie defers one ServiceDestroyed with the service's id and "
+    "unregisters exactly that cookie (destroyed_service_is_announced); remove_object defers ObjectDestroyed and one ServiceDestroyed per "
+    "listed service, none skipped in a consistent registry (destroyed_object_cascade_is_announced, listed_services_are_announced); the "
+    "work loop emits them, services first (deferred_destructions_are_emitted). Partial: that an object's list names no service twice is "
+    "a hypothesis there; who receives an emitted event is C10; whole histories of these messages are decided by the correspondence runs "
+    "over a pool of 4 uuids (collisions, re-creation, foreign access, disconnects, connections coming back to services they had "
+    "subscribed to).", "DESIGN.md section 6 C03 and 10.2")
 CLAIMS["C04"] = _b(
     "Machine-checked proofs (Lean 4): emit_event's fan-out for every broker state is exactly one copy, payload unchanged, per connection "
     "subscribed to the event id or to all events (fanout_exact), non-owner emits are dropped (foreign_emit_dropped); for ALL histories of "
